@@ -1212,6 +1212,22 @@ fn c16_observe(runner: &Runner, prog: &Program, root: &str, rep: usize) -> Strin
     )
 }
 
+/// Run mode against a peer that fails without reading its input, under four schedules of the two
+/// processes: the peer gives up at once, or after 40, 150 or 600 ms - before, while or after sylt writes
+/// the program to it. What sylt reports must not depend on who wins.
+fn c16_peer_schedule_divergence(runner: &Runner, prog: &Program, root: &str) -> Option<String> {
+    let cell = Cell { mode: "run".into(), require: None, no_std: false, target: String::new(), peer: "P5-fails-without-reading".into(), input: "present".into(), spelling: "absolute".into(), fault: None };
+    let see = |o: &ProcObs| format!("exit={:?}\n{}", o.exit, normalise(root, &strip_ansi(&String::from_utf8_lossy(&o.stdout))));
+    let a = see(&runner.run_cell(prog, &cell, root, &[]));
+    for delay in ["40", "150", "600"] {
+        let b = see(&runner.run_cell(prog, &cell, root, &[("SYLT_SIM_LUA_DELAY_MS".to_string(), delay.to_string())]));
+        if a != b {
+            return Some(format!("run mode, lua fails without reading its input, at once vs after {} ms: {}", delay, crate::props::first_diff(&a, &b)));
+        }
+    }
+    None
+}
+
 fn replay_c16(doc: &J, prog: &Program, runner: &Runner, id: &str) -> i32 {
     let reps = doc.get("layer_b").map(|l| l.u64_of("repetitions")).unwrap_or(32).max(2) as usize;
     let root = runner.layout(prog, "p", false);
@@ -1221,6 +1237,14 @@ fn replay_c16(doc: &J, prog: &Program, runner: &Runner, id: &str) -> i32 {
         if o != first {
             println!("REPRODUCED {}", id);
             println!("{}", crate::props::first_diff(&first, &o));
+            println!("VIOLATION property=C16 replay=<this file>");
+            return 1;
+        }
+    }
+    if first.starts_with("exit=Some(0)") {
+        if let Some(d) = c16_peer_schedule_divergence(runner, prog, &root) {
+            println!("REPRODUCED {}", id);
+            println!("{}", d);
             println!("VIOLATION property=C16 replay=<this file>");
             return 1;
         }
@@ -1269,20 +1293,8 @@ pub fn run_c16_processes(tier: &str, batch_seed: u64) -> LayerBResult {
                         break;
                     }
                 }
-                // run mode against a peer that fails without reading its input: the report must not depend on who wins the race
                 if diverged.is_none() && first.starts_with("exit=Some(0)") {
-                    let cell = Cell { mode: "run".into(), require: None, no_std: false, target: String::new(), peer: "P5-fails-without-reading".into(), input: "present".into(), spelling: "absolute".into(), fault: None };
-                    let see = |o: &ProcObs| format!("exit={:?}\n{}", o.exit, normalise(&root, &strip_ansi(&String::from_utf8_lossy(&o.stdout))));
-                    // the schedule of the two processes is the simulator's choice: the peer gives up at once, or after
-                    // 40, 150 or 600 ms - before, while or after sylt writes the program to it
-                    let a = see(&runner.run_cell(&prog, &cell, &root, &[]));
-                    for delay in ["40", "150", "600"] {
-                        let b = see(&runner.run_cell(&prog, &cell, &root, &[("SYLT_SIM_LUA_DELAY_MS".to_string(), delay.to_string())]));
-                        if a != b {
-                            diverged = Some(format!("run mode, lua fails without reading its input, at once vs after {} ms: {}", delay, crate::props::first_diff(&a, &b)));
-                            break;
-                        }
-                    }
+                    diverged = c16_peer_schedule_divergence(&runner, &prog, &root);
                 }
                 let mut r = result.lock().unwrap();
                 r.0 += 1;
